@@ -234,7 +234,9 @@ MUTANTS = [
                                 continue;'''),
     dict(id="c19-overwrite-again", prop="C19", file="src/client.rs", expect="C19-R2",
          what="idle-loop Parse arm overwrites the pending verdict again",
-         old='''                                let _ = query_router.infer(&ast);
+         old='''                                if query_router.query_parser_enabled() {
+                                    let _ = query_router.infer(&ast);
+                                }
                             }
                             Err(error) => {
                                 warn!(
@@ -246,7 +248,9 @@ MUTANTS = [
                     }
 
                     self.buffer_parse(message, &pool)?;''',
-         new='''                                let _ = query_router.infer(&ast);
+         new='''                                if query_router.query_parser_enabled() {
+                                    let _ = query_router.infer(&ast);
+                                }
                                 if let Ok(o) = query_router.execute_plugins(&ast).await { plugin_output = Some(o); }
                             }
                             Err(error) => {
@@ -825,4 +829,11 @@ panic = "abort"
                     self.data_available = true;
 ''', new='''                    // More data is available after this message, this is not the end of the reply.
 '''),
+    dict(id="c19-dispatch-follows-session-override", prop="C19", file="src/query_router.rs", expect="C19-R3",
+         what="statement parsing follows the client's parser override again",
+         old='''        if self.pool_settings.query_parser_enabled && self.pool_settings.plugins.is_some() {
+            return true;
+        }
+
+        self.query_parser_enabled()''', new='''        self.query_parser_enabled()'''),
 ]
